@@ -9,6 +9,7 @@
 #include <unistd.h>
 #include <sys/types.h>
 #include <sys/wait.h>
+#include <sys/resource.h>
 
 static char linebuf[1 << 16];
 static size_t linelen;
@@ -149,8 +150,17 @@ int h_main(const struct h_area * a)
         pid = fork();
         if (pid == 0) {
             /* a script that does not finish (a loop in the code under test)
-             * is reported as "STOP hang" by the parent */
-            alarm(getenv("H_SCRIPT_TIMEOUT") ? (unsigned)atoi(getenv("H_SCRIPT_TIMEOUT")) : 4);
+             * is reported as "STOP hang" by the parent.  The limit is on CPU
+             * time, so that a loaded machine cannot cause it; a generous
+             * wall-clock alarm is the backstop for a blocked child. */
+            {
+                struct rlimit rl;
+                unsigned cpu = getenv("H_SCRIPT_TIMEOUT") ? (unsigned)atoi(getenv("H_SCRIPT_TIMEOUT")) : 5;
+                rl.rlim_cur = cpu;
+                rl.rlim_max = cpu + 1;
+                setrlimit(RLIMIT_CPU, &rl);
+                alarm(20 * cpu + 60);
+            }
             run_script(a, lines + i, j - i);
             _exit(0);
         }
@@ -166,7 +176,7 @@ int h_main(const struct h_area * a)
             outf("STOP %s",
                  sig == SIGABRT ? "abort" :
                  (sig == SIGSEGV || sig == SIGBUS) ? "segv" :
-                 sig == SIGALRM ? "hang" : "signal");
+                 (sig == SIGALRM || sig == SIGXCPU || sig == SIGKILL) ? "hang" : "signal");
             out_end();
         } else if (WIFEXITED(st) && WEXITSTATUS(st) == 99) {
             outf("STOP asan");
